@@ -353,3 +353,18 @@ package fzf
 //@   invariant forall(j, 0, len(parts), parts[j] == tokens[max(begin, 1) - 1 + j].text)
 //@   invariant forall(j, 0, len(parts), parts[j] != nil)
 //@   decreases end + 1 - idx
+
+// ---------------------------------------------------------------- --listen server
+// parseSingleActionList / parseGetParams belong to option parsing (C17); here only their call is of interest.
+//@ func parseSingleActionList trusted
+//@ func parseGetParams trusted
+
+// A request is authorized when no key is configured or the presented key equals it (constant-time compare).
+// No state is revealed (getHandler) and no action is delivered (send on actionChannel) unless authorized.
+//@ func httpServer.handleHttpRequest
+//@ property C16
+//@ requires server != nil
+//@ effect call server.getHandler requires len(server.apiKey) == 0 || content_eq(bytesOf(apiKey), server.apiKey)
+//@ effect send server.actionChannel requires (len(server.apiKey) == 0 || content_eq(bytesOf(apiKey), server.apiKey)) && len(actions) > 0 && !isGet
+//@ loop 1
+//@   invariant 0 <= section && section <= 2 && 0 <= contentLength && contentLength <= 1048576 && (section == 2 ==> contentLength > 0)
